@@ -9,7 +9,22 @@ from harness import detloop, simnet
 TYPE_OF = None
 
 
-EXC_CLASSES = [RuntimeError, ValueError, KeyError, ConnectionResetError, BrokenPipeError, ConnectionRefusedError, OSError, TimeoutError, ZeroDivisionError]
+class QuotaExceeded(Exception):
+    """an application exception that carries its own structured `data` (not bytes) — nothing of the library's"""
+    def __init__(self, *a):
+        super().__init__(*a)
+        self.data = {'limit': 10}
+
+
+class UpstreamFailure(Exception):
+    """an application exception with its own `error_code` attribute (a string, not an ErrorCode)"""
+    def __init__(self, *a):
+        super().__init__(*a)
+        self.error_code = 'E_UPSTREAM'
+
+
+EXC_CLASSES = [RuntimeError, ValueError, KeyError, ConnectionResetError, BrokenPipeError, ConnectionRefusedError, OSError, TimeoutError, ZeroDivisionError,
+               QuotaExceeded, UpstreamFailure]
 _exc_counter = [0]
 
 
